@@ -28,8 +28,29 @@ class _Continue(Exception):
     pass
 
 
+class Raised(Exception):
+    """the evaluated code executed a raise statement (or used a local that no path bound)"""
+    def __init__(self, what):
+        Exception.__init__(self, what)
+        self.what = what
+
+
 CMP = {ast.Lt: operator.lt, ast.LtE: operator.le, ast.Gt: operator.gt, ast.GtE: operator.ge, ast.Eq: operator.eq,
-       ast.NotEq: operator.ne, ast.Is: operator.is_, ast.IsNot: operator.is_not}
+       ast.NotEq: operator.ne, ast.Is: operator.is_, ast.IsNot: operator.is_not,
+       ast.In: lambda a, b: a in b, ast.NotIn: lambda a, b: a not in b}
+
+
+def _comprehension(e, env):
+    if len(e.generators) != 1 or not isinstance(e.generators[0].target, ast.Name):
+        raise AnalysisError('pure evaluator: comprehension %s' % norm(e))
+    g = e.generators[0]
+    out = []
+    inner = dict(env)
+    for item in list(ev(g.iter, env)):
+        inner[g.target.id] = item
+        if all(ev(c, inner) for c in g.ifs):
+            out.append(ev(e.elt, inner))
+    return out
 
 
 def ev(e, env):
@@ -37,8 +58,34 @@ def ev(e, env):
         return e.value
     if isinstance(e, ast.Name):
         if e.id not in env:
+            if env.get('__strict_locals__'):
+                raise Raised('UnboundLocalError: %s' % e.id)
             raise AnalysisError('pure evaluator: unbound name %s' % e.id)
         return env[e.id]
+    if isinstance(e, (ast.GeneratorExp, ast.ListComp)):
+        return _comprehension(e, env)
+    if isinstance(e, ast.Subscript):
+        o, k = ev(e.value, env), ev(e.slice, env)
+        try:
+            return o[k]
+        except (KeyError, IndexError) as ex:
+            raise Raised('%s: %r' % (type(ex).__name__, k))
+    if isinstance(e, ast.Call) and isinstance(e.func, ast.Name) and e.func.id in ('any', 'all', 'len', 'list', 'bool', 'id', 'type') and not e.keywords and len(e.args) == 1:
+        a = ev(e.args[0], env)
+        if e.func.id == 'type':
+            return a.__dict__['_type'] if isinstance(a, Obj) and '_type' in a.__dict__ else type(a)
+        return {'any': any, 'all': all, 'len': len, 'list': list, 'bool': bool, 'id': id}[e.func.id](a)
+    if isinstance(e, ast.Call) and isinstance(e.func, ast.Attribute) and not e.keywords and e.args:
+        o = ev(e.func.value, env)
+        if isinstance(o, Obj) and callable(o.__dict__.get(e.func.attr)):
+            return o.__dict__[e.func.attr](*[ev(a, env) for a in e.args])
+        if isinstance(o, dict) and e.func.attr in ('get', 'keys', 'values'):
+            return getattr(o, e.func.attr)(*[ev(a, env) for a in e.args])
+        raise AnalysisError('pure evaluator: call %s not modelled' % norm(e))
+    if isinstance(e, ast.Call) and isinstance(e.func, ast.Attribute) and not e.keywords and not e.args and e.func.attr in ('keys', 'values', 'items'):
+        o = ev(e.func.value, env)
+        if isinstance(o, dict):
+            return getattr(o, e.func.attr)()
     if isinstance(e, ast.Attribute):
         o = ev(e.value, env)
         if not isinstance(o, Obj) or e.attr not in o.__dict__:
@@ -127,13 +174,18 @@ def run_body(stmts, env):
             continue
         elif isinstance(s, ast.Pass):
             continue
+        elif isinstance(s, ast.Raise):
+            raise Raised(norm(s.exc) if s.exc is not None else 're-raise')
         else:
             raise AnalysisError('pure evaluator: unsupported statement %s' % norm(s))
 
 
-def call(fnode, args):
+def call(fnode, args, globals_=None, strict_locals=False):
     params = [a.arg for a in fnode.args.args]
-    env = dict(zip(params, args))
+    env = dict(globals_ or {})
+    env.update(zip(params, args))
+    if strict_locals:
+        env['__strict_locals__'] = True
     try:
         run_body(fnode.body, env)
     except _Return as r:
